@@ -200,8 +200,47 @@ impl Engine for RecSim {
             60_000
         }
     }
-    fn run_case(&self, seed: u64, idx: u64, _tier: &str, acc: &mut Acc) -> u64 {
+    fn run_case(&self, seed: u64, idx: u64, tier: &str, acc: &mut Acc) -> u64 {
         acc.inc("evaluations.cases");
+        if idx % 4 == 3 {
+            // token-tree recursion through nested_in
+            let c = tree::gen(seed, idx, tier);
+            let (d, verdict, harness) = tree::run_case(&c);
+            if let Some(h) = harness {
+                acc.inc("HARNESS.recsim_tree_problem");
+                eprintln!("harness: recsim tree case {}: {}", idx, h);
+                return d;
+            }
+            acc.inc("cases.token_tree(nested_in)");
+            acc.add("evaluations.comparisons_with_unrolling", 4);
+            acc.max("max.tree_depth", c.depth as u64);
+            if c.unroll {
+                acc.inc("tree.compared_with_unrolling");
+            } else {
+                acc.inc("tree.compared_with_generator_expectation");
+            }
+            if c.memo {
+                acc.inc("tree.memoized_recursion");
+            }
+            acc.distinct("cases", d);
+            if c.depth >= 3 {
+                acc.distinct("nontrivial_cases", d);
+            }
+            if let Some(v) = verdict {
+                acc.violations.push(Violation {
+                    property: "C12".into(),
+                    engine: "recsim".into(),
+                    seed,
+                    case: idx,
+                    class: v.class.clone(),
+                    summary: format!("{} token-tree case={:?} unrolled/expected={} recursive={}", v.class, c, v.expected, v.observed),
+                    replay: json!({"engine": "recsim", "property": "C12", "seed": seed, "case": idx, "class": v.class, "tree": c, "expected": v.expected, "observed": v.observed}),
+                });
+            } else {
+                acc.sample("samples", idx, 6, || json!({"case": idx, "token_tree": c}));
+            }
+            return d;
+        }
         let Some(case) = gen_case(seed, idx) else {
             acc.inc("cases.no_recursive_grammar_generated");
             return 0;
@@ -348,4 +387,237 @@ pub fn minimise(rp: &Replay) -> Replay {
         }
     }
     best
+}
+
+// ---------------------------------------------------------------------------------------------
+// Token trees: recursion that descends into nested inputs (`nested_in`). Input offsets restart at 0
+// in every nested input, so anything that identifies "where the recursion is" by offset alone is
+// wrong here. Same three builds, same oracle.
+
+pub mod tree {
+    use super::*;
+    use chumsky::recursive::Recursive;
+    use chumsky::Boxed;
+
+    #[derive(Clone, PartialEq)]
+    pub enum TT {
+        Leaf(u8),
+        Group(Vec<TT>),
+    }
+    impl std::fmt::Debug for TT {
+        fn fmt(&self, f: &mut std::fmt::Formatter<'_>) -> std::fmt::Result {
+            match self {
+                TT::Leaf(s) => write!(f, "L{}", s),
+                TT::Group(v) => write!(f, "G[{}]", v.len()),
+            }
+        }
+    }
+    impl Drop for TT {
+        fn drop(&mut self) {
+            // iterative teardown: trees are up to 20 000 levels deep
+            if let TT::Group(v) = self {
+                let mut stack = std::mem::take(v);
+                while let Some(mut t) = stack.pop() {
+                    if let TT::Group(v2) = &mut t {
+                        stack.append(v2);
+                    }
+                }
+            }
+        }
+    }
+
+    #[derive(Clone, Debug, PartialEq, Eq, Serialize, Deserialize)]
+    pub struct TreeCase {
+        pub depth: usize,
+        /// leaves before the sub-group at every level (its index in the parent)
+        pub before: u8,
+        pub after: u8,
+        /// alternate the index between levels instead of keeping it constant
+        pub vary: bool,
+        /// the innermost leaf is one the grammar rejects (error inside the deepest level)
+        pub bad_leaf: bool,
+        pub memo: bool,
+        pub life: Life,
+        /// compare with the unrolling (else: with the generator-known expectation only)
+        pub unroll: bool,
+    }
+
+    type O = (u64, u64);
+    type In<'a> = &'a [TT];
+    type Er<'a> = extra::Err<Rich<'a, TT>>;
+    type BX<'a> = Boxed<'a, 'a, In<'a>, O, Er<'a>>;
+
+    pub fn make_input(c: &TreeCase) -> (Vec<TT>, O) {
+        let mut cur = TT::Leaf(if c.bad_leaf { 7 } else { 1 });
+        let mut leaves = 1u64;
+        for lvl in (0..c.depth).rev() {
+            let (b, a) = if c.vary && lvl % 2 == 1 { (c.after, c.before) } else { (c.before, c.after) };
+            let mut ch = Vec::with_capacity(b as usize + a as usize + 1);
+            for _ in 0..b {
+                ch.push(TT::Leaf(2));
+            }
+            ch.push(cur);
+            for _ in 0..a {
+                ch.push(TT::Leaf(3));
+            }
+            leaves += b as u64 + a as u64;
+            cur = TT::Group(ch);
+        }
+        (vec![cur], (leaves, c.depth as u64))
+    }
+
+    fn body<'a>(me: BX<'a>, memo: bool) -> BX<'a> {
+        let leaf = select_ref! { TT::Leaf(s) if *s < 5 => (1u64, 0u64) };
+        let group = me
+            .repeated()
+            .collect::<Vec<O>>()
+            .nested_in(select_ref! { TT::Group(ts) => ts.as_slice() })
+            .map(|v: Vec<O>| (v.iter().map(|x| x.0).sum::<u64>(), 1 + v.iter().map(|x| x.1).max().unwrap_or(0)));
+        if memo {
+            leaf.or(group).memoized().boxed()
+        } else {
+            leaf.or(group).boxed()
+        }
+    }
+
+    fn build_tree<'a>(mode: RecMode, memo: bool) -> BX<'a> {
+        match mode {
+            RecMode::Direct => recursive(|me| body(Parser::boxed(me), memo)).boxed(),
+            RecMode::Indirect => {
+                let mut r = Recursive::declare();
+                let b = body(Parser::boxed(r.clone()), memo);
+                r.define(b);
+                r.boxed()
+            }
+            RecMode::Unroll(k) => {
+                let mut u: BX<'a> = empty().try_map(|(), span| Err::<O, _>(Rich::custom(span, UNROLL_FLOOR))).boxed();
+                for _ in 0..k {
+                    u = body(u, memo);
+                }
+                u
+            }
+        }
+    }
+
+    pub type TOut = (Option<O>, Vec<String>, bool);
+
+    fn run<'a>(p: &BX<'a>, input: &'a [TT], check: bool) -> Result<TOut, String> {
+        let r = std::panic::catch_unwind(std::panic::AssertUnwindSafe(|| {
+            if check {
+                let (o, e) = p.check(input).into_output_errors();
+                (None, e.iter().map(|e| format!("{:?}@{:?}", e.reason(), e.span())).collect::<Vec<_>>(), o.is_some())
+            } else {
+                let (o, e) = p.parse(input).into_output_errors();
+                let ok = o.is_some();
+                (o, e.iter().map(|e| format!("{:?}@{:?}", e.reason(), e.span())).collect::<Vec<_>>(), ok)
+            }
+        }));
+        r.map_err(|_| hook::take_panic())
+    }
+
+    fn with_life<'a>(p: BX<'a>, life: &Life, input: &'a [TT], check: bool) -> Result<TOut, String> {
+        match life {
+            Life::Value => run(&p, input, check),
+            Life::CloneDropOriginal => {
+                let q = p.clone();
+                drop(p);
+                run(&q, input, check)
+            }
+            Life::Reboxed => {
+                let q = p.clone();
+                let r = Parser::boxed(q.clone());
+                drop(p);
+                drop(q);
+                run(&r, input, check)
+            }
+            Life::Twice => {
+                let _ = run(&p, input, check);
+                run(&p, input, check)
+            }
+        }
+    }
+
+    pub struct TreeVerdict {
+        pub class: String,
+        pub expected: String,
+        pub observed: String,
+    }
+
+    pub fn run_case(c: &TreeCase) -> (u64, Option<TreeVerdict>, Option<String>) {
+        let (input, want) = make_input(c);
+        let input = &input[..];
+        let mut d = fold(c.depth as u64, (c.before as u64) << 8 | c.after as u64);
+        for check in [false, true] {
+            let reference: Result<TOut, String> = if c.unroll {
+                let u = build_tree(RecMode::Unroll(c.depth + 2), c.memo);
+                run(&u, input, check)
+            } else if c.bad_leaf {
+                // beyond the unrolling bound only acceptance is known: rejected, no output, >= 1 error
+                Ok((None, vec!["<some error>".into()], false))
+            } else {
+                Ok((if check { None } else { Some(want) }, vec![], true))
+            };
+            if let Ok(r) = &reference {
+                if r.1.iter().any(|e| e.contains(UNROLL_FLOOR)) {
+                    return (d, None, Some("unrolling floor reached".into()));
+                }
+                if c.unroll && !c.bad_leaf && (r.2 != true || (!check && r.0 != Some(want))) {
+                    return (d, None, Some(format!("unrolled reference disagrees with the generator expectation: {:?} vs {:?}", r, want)));
+                }
+            } else if let Err(e) = &reference {
+                return (d, None, Some(format!("unrolled reference panicked: {}", e)));
+            }
+            let reference = reference.unwrap();
+            for (name, mode) in [("recursive()", RecMode::Direct), ("declare/define", RecMode::Indirect)] {
+                let p = build_tree(mode, c.memo);
+                let got = with_life(p, &c.life, input, check);
+                let same = match &got {
+                    Ok(g) => {
+                        if c.unroll {
+                            *g == reference
+                        } else if c.bad_leaf {
+                            g.0.is_none() && !g.1.is_empty() && !g.2
+                        } else {
+                            *g == reference
+                        }
+                    }
+                    Err(_) => false,
+                };
+                d = fold(d, fold_bytes(1, format!("{:?}", got).as_bytes()));
+                if !same {
+                    let class = if got.is_err() { "tree-recursive-panics" } else { "tree-differs-from-unrolling" };
+                    return (d, Some(TreeVerdict { class: format!("{}:{}:{}", class, name, if check { "check" } else { "parse" }), expected: format!("{:?}", reference), observed: format!("{:?}", got) }), None);
+                }
+            }
+        }
+        (d, None, None)
+    }
+
+    pub fn gen(seed: u64, idx: u64, tier: &str) -> TreeCase {
+        let mut rng = Rng::for_case(seed, "recsim-tree", idx);
+        let k = idx / 4;
+        let depth = if k <= 48 {
+            k as usize
+        } else if rng.chance(3, 4) {
+            rng.log_range(1, 400) as usize
+        } else {
+            rng.log_range(400, if tier == "thorough" { 20_000 } else { 6_000 }) as usize
+        };
+        let unroll = depth <= 1500;
+        TreeCase {
+            depth,
+            before: rng.below(3) as u8,
+            after: rng.below(3) as u8,
+            vary: rng.chance(1, 4),
+            bad_leaf: rng.chance(1, 4),
+            memo: rng.chance(1, 4),
+            life: match rng.below(4) {
+                0 => Life::Value,
+                1 => Life::CloneDropOriginal,
+                2 => Life::Reboxed,
+                _ => Life::Twice,
+            },
+            unroll,
+        }
+    }
 }
